@@ -205,7 +205,9 @@ Section WStream.
   Definition wset_sends (l : list (option bytes)) := wset_misc ws_has_app ws_hk ws_has_conn ws_buffer ws_close_code ws_resp (fun _ => l).
 
   Definition wlift {A} (r : result (E:=exn) A) : MP A := match r with Ok a => ret a | Raise e => raise e end.
-  Definition wapp_put (m : rmsg) : MP unit := s <- wgets ;; emit (OPut (ws_id s) m).
+  (* self.app_put is None until the application has been spawned: calling it is a TypeError *)
+  Definition wapp_put (m : rmsg) : MP unit :=
+    s <- wgets ;; if ws_has_app s then emit (OPut (ws_id s) m) else raise ETypeError.
 
   (* the StreamClosed branch of WSStream.handle; never sends *)
   Definition ws_stream_closed : MP unit :=
